@@ -179,6 +179,8 @@ func vfcfExportOptions(u vfcfUpd) ExportOptions {
 		o.Squash = "root"
 	case "other":
 		o.Squash = "all"
+	case "case": // the current mode in another spelling
+		o.Squash = "ROOT"
 	}
 	for _, f := range vfcfNF {
 		vfcfSetInt(&o, f, vfcfConcrete(f, u.N[f]))
@@ -222,6 +224,8 @@ func vfcfApply(n *AbsfsNFS, u vfcfUpd) error {
 		p.Squash = "root"
 	case "other":
 		p.Squash = "all"
+	case "case":
+		p.Squash = "ROOT"
 	}
 	return n.UpdatePolicyOptions(p)
 }
@@ -281,7 +285,18 @@ func vfcfProject(o, ref ExportOptions) (M, M) {
 	} else if o.MaxFileSize > 0 {
 		mf = "pos"
 	}
-	return M{"n": nm, "t": tm, "log": lg, "rlc": rl, "ro": ro, "maxfs": mf, "squash": o.Squash}, conc
+	return M{"n": nm, "t": tm, "log": lg, "rlc": rl, "ro": ro, "maxfs": mf, "squash": vfcfSquash(o.Squash)}, conc
+}
+
+// vfcfSquash reports the mode, not its spelling.
+func vfcfSquash(s string) string {
+	switch strings.ToLower(s) {
+	case "root":
+		return "root"
+	case "all":
+		return "all"
+	}
+	return "other:" + s
 }
 
 type vfcfInst struct {
@@ -466,7 +481,7 @@ func TestVF_Config(t *testing.T) {
 			}
 			steps = append([]vfcfStep{{TI: 0, U: blank}}, steps...)
 		}
-		if steps[0].U.Squash == "other" {
+		if steps[0].U.Squash == "other" || steps[0].U.Squash == "case" {
 			steps[0].U.Squash = "same" // New() itself takes any valid mode; the instance is always built with "root"
 		}
 		var lines []M
